@@ -215,4 +215,14 @@ def rule_prefix(ctx):
             "the renaming helpers %s are used only by here and there: %s" % ([h.split("::")[-1] for h in helpers], callers))
 
 
-RULES = [rule_gamma, rule_apply, rule_prefix]
+def rule_printed_as_read(ctx):
+    """gamma's result reaches the user as text (`translate --with gamma`): the default printer must put parentheses wherever the grammar
+    would otherwise read another formula (C15's precedence and dispatch obligations)"""
+    from . import c15
+    sub = type(ctx)(ctx.prop, ctx.tier, ctx.facts)
+    c15.rule_precedence(sub)
+    c15.rule_dispatch(sub)
+    ctx.obls.extend(o for o in sub.obls if o["key"].startswith("PRN-P:"))
+
+
+RULES = [rule_gamma, rule_apply, rule_prefix, rule_printed_as_read]
